@@ -145,6 +145,151 @@ func baseRoot(v ssa.Value) ssa.Value {
 	}
 }
 
+func lockTransfer(b *ssa.BasicBlock, s lockState, visit func(in ssa.Instruction, s lockState)) lockState {
+	s = s.clone()
+	for _, ins := range b.Instrs {
+		if visit != nil {
+			visit(ins, s)
+		}
+		if d, ok := ins.(*ssa.Defer); ok {
+			// a deferred Unlock: the mutex is released at every return reached from here
+			dc := d.Common()
+			if fn, ok := dc.Value.(*ssa.Function); ok && fn.Signature.Recv() != nil && len(dc.Args) > 0 && (fn.Name() == "Unlock" || fn.Name() == "RUnlock") {
+				if b0, mu, ok := mutexOf(dc.Args[0]); ok {
+					s["defer:"+lockKey(baseRoot(b0), mu)] = 'W'
+				}
+			}
+			continue
+		}
+		call, ok := ins.(*ssa.Call)
+		if !ok {
+			continue
+		}
+		cc := call.Common()
+		name := ""
+		var recv ssa.Value
+		if cc.IsInvoke() {
+			name = cc.Method.Name()
+			recv = cc.Value
+		} else if fn, ok := cc.Value.(*ssa.Function); ok && fn.Signature.Recv() != nil && len(cc.Args) > 0 {
+			name = fn.Name()
+			recv = cc.Args[0]
+		}
+		switch name {
+		case "Lock", "RLock", "Unlock", "RUnlock":
+			b0, mu, ok := mutexOf(recv)
+			if !ok {
+				continue
+			}
+			k := lockKey(baseRoot(b0), mu)
+			alias := "<" + structNameOf(baseRoot(b0).Type()) + "." + mu + ">"
+			switch name {
+			case "Lock":
+				s[k] = 'W'
+				s[alias] = 'W'
+				if fn, ok := cc.Value.(*ssa.Function); !ok || fn.Pkg == nil || fn.Pkg.Pkg.Path() != "sync" {
+					s["nosync:"+k] = 'W' // a lock type of the repository (e.g. a context-aware mutex whose Lock may fail): not subject to the balance rule
+				}
+			case "RLock":
+				if s[k] != 'W' {
+					s[k] = 'R'
+					s[alias] = 'R'
+				}
+			default:
+				delete(s, k)
+				delete(s, alias)
+			}
+		}
+	}
+	return s
+}
+
+// entryLockState: the mutexes a function holds on entry, from its `holds` declarations.
+func entryLockState(cf *ContractFile, f *ssa.Function) lockState {
+	entry := lockState{}
+	if cf == nil {
+		return entry
+	}
+	if ct := cf.Funcs[shortFuncName(f)]; ct != nil {
+		for _, h := range ct.Holds {
+			parts := strings.SplitN(h, ".", 2)
+			for _, p := range f.Params {
+				if p.Name() == parts[0] && len(parts) == 2 {
+					entry[lockKey(p, parts[1])] = 'W'
+				}
+			}
+			for _, p := range f.FreeVars {
+				if p.Name() == parts[0] && len(parts) == 2 {
+					entry[lockKey(p, parts[1])] = 'W'
+				}
+			}
+		}
+	}
+	return entry
+}
+
+// lockFixpoint: the must-hold lock state at the entry of every reachable block.
+func lockFixpoint(f *ssa.Function, entry lockState) map[*ssa.BasicBlock]lockState {
+	in := map[*ssa.BasicBlock]lockState{f.Blocks[0]: entry}
+	outS := map[*ssa.BasicBlock]lockState{}
+	changed := true
+	for iter := 0; changed && iter < 100; iter++ {
+		changed = false
+		for _, b := range f.Blocks {
+			var s lockState
+			if b == f.Blocks[0] {
+				s = entry.clone()
+			} else {
+				first := true
+				for _, p := range b.Preds {
+					if o, ok := outS[p]; ok {
+						if first {
+							s = o.clone()
+							first = false
+						} else {
+							s = meet(s, o)
+						}
+					}
+				}
+				if first {
+					continue
+				}
+			}
+			in[b] = s
+			o := lockTransfer(b, s, nil)
+			if prev, ok := outS[b]; !ok || !sameState(prev, o) {
+				outS[b] = o
+				changed = true
+			}
+		}
+	}
+	return in
+}
+
+// heldAt: is a mutex of the named struct type (key "<Type.mu>") certainly held just before instruction idx of block b?
+func heldAt(cf *ContractFile, f *ssa.Function, b *ssa.BasicBlock, idx int, key string) bool {
+	in := lockFixpoint(f, entryLockState(cf, f))
+	s, ok := in[b]
+	if !ok {
+		return false
+	}
+	held := false
+	n := 0
+	seen := false
+	lockTransfer(b, s, func(ins ssa.Instruction, cur lockState) {
+		if n == idx && !seen {
+			_, held = cur[key]
+			seen = true
+		}
+		n++
+	})
+	if !seen {
+		// idx is past the last instruction: state at the end of the block
+		_, held = lockTransfer(b, s, nil)[key]
+	}
+	return held
+}
+
 func locksetObligations(w *World, pkg string, run *checkRun) []*Obligation {
 	path := modPath + "/" + pkg
 	base := filepath.Base(pkg)
@@ -169,83 +314,10 @@ func locksetObligations(w *World, pkg string, run *checkRun) []*Obligation {
 	var out []*Obligation
 	for _, f := range allFunctions(w, path) {
 		fname := shortFuncName(f)
-		// entry lockset from `holds` declarations
-		entry := lockState{}
-		if ct := cf.Funcs[fname]; ct != nil {
-			for _, h := range ct.Holds {
-				parts := strings.SplitN(h, ".", 2)
-				for _, p := range append(append([]*ssa.Parameter{}, f.Params...)) {
-					if p.Name() == parts[0] && len(parts) == 2 {
-						entry[lockKey(p, parts[1])] = 'W'
-					}
-				}
-				for _, p := range f.FreeVars {
-					if p.Name() == parts[0] && len(parts) == 2 {
-						entry[lockKey(p, parts[1])] = 'W'
-					}
-				}
-			}
-		}
+		entry := entryLockState(cf, f)
 		in := map[*ssa.BasicBlock]lockState{f.Blocks[0]: entry}
 		outS := map[*ssa.BasicBlock]lockState{}
-		transfer := func(b *ssa.BasicBlock, s lockState, visit func(in ssa.Instruction, s lockState)) lockState {
-			s = s.clone()
-			for _, ins := range b.Instrs {
-				if visit != nil {
-					visit(ins, s)
-				}
-				if d, ok := ins.(*ssa.Defer); ok {
-					// a deferred Unlock: the mutex is released at every return reached from here
-					dc := d.Common()
-					if fn, ok := dc.Value.(*ssa.Function); ok && fn.Signature.Recv() != nil && len(dc.Args) > 0 && (fn.Name() == "Unlock" || fn.Name() == "RUnlock") {
-						if b0, mu, ok := mutexOf(dc.Args[0]); ok {
-							s["defer:"+lockKey(baseRoot(b0), mu)] = 'W'
-						}
-					}
-					continue
-				}
-				call, ok := ins.(*ssa.Call)
-				if !ok {
-					continue
-				}
-				cc := call.Common()
-				name := ""
-				var recv ssa.Value
-				if cc.IsInvoke() {
-					name = cc.Method.Name()
-					recv = cc.Value
-				} else if fn, ok := cc.Value.(*ssa.Function); ok && fn.Signature.Recv() != nil && len(cc.Args) > 0 {
-					name = fn.Name()
-					recv = cc.Args[0]
-				}
-				switch name {
-				case "Lock", "RLock", "Unlock", "RUnlock":
-					b0, mu, ok := mutexOf(recv)
-					if !ok {
-						continue
-					}
-					k := lockKey(baseRoot(b0), mu)
-					alias := "<" + structNameOf(baseRoot(b0).Type()) + "." + mu + ">"
-					switch name {
-					case "Lock":
-						s[k] = 'W'
-						s[alias] = 'W'
-						if fn, ok := cc.Value.(*ssa.Function); !ok || fn.Pkg == nil || fn.Pkg.Pkg.Path() != "sync" {
-							s["nosync:"+k] = 'W' // a lock type of the repository (e.g. a context-aware mutex whose Lock may fail): not subject to the balance rule
-						}
-					case "RLock":
-						if s[k] != 'W' {
-							s[k] = 'R'
-							s[alias] = 'R'
-						}
-					default:
-						delete(s, k)
-						delete(s, alias)
-					}
-				}
-			}
-			return s
-		}
+		transfer := lockTransfer
 		// fixpoint
 		changed := true
 		for iter := 0; changed && iter < 100; iter++ {
